@@ -76,7 +76,9 @@ LB = REG.add(Contract(
     result=TTuple(TReal, TReal),
     requires={"non-negative well depths": "eps_A >= 0 and eps_B >= 0"},
     ensures={"arithmetic mean of sigma": "result[0] == (sig_A + sig_B) / 2",
-             "geometric mean of epsilon": "result[1] >= 0 and result[1] * result[1] == eps_A * eps_B"},
+             "geometric mean of epsilon": "result[1] >= 0 and result[1] * result[1] == eps_A * eps_B",
+             "(the root is the principal square root: names the value for callers)": "result[1] == root(eps_A * eps_B)"},
+    spec_fns={"root": lambda x: ops.SQRT(ops.real(x))},
     props=("C09",),
 ))
 
@@ -86,7 +88,9 @@ GEO = REG.add(Contract(
     result=TTuple(TReal, TReal),
     requires={"non-negative coefficients": "C6_A >= 0 and C6_B >= 0 and C12_A >= 0 and C12_B >= 0"},
     ensures={"geometric mean C6": "result[0] >= 0 and result[0] * result[0] == C6_A * C6_B",
-             "geometric mean C12": "result[1] >= 0 and result[1] * result[1] == C12_A * C12_B"},
+             "geometric mean C12": "result[1] >= 0 and result[1] * result[1] == C12_A * C12_B",
+             "(the roots are the principal square roots: names the values for callers)": "result[0] == root(C6_A * C6_B) and result[1] == root(C12_A * C12_B)"},
+    spec_fns={"root": lambda x: ops.SQRT(ops.real(x))},
     props=("C09",),
 ))
 
@@ -219,3 +223,169 @@ REPLACE_DEFINED = REG.add(Contract(
                   same_params=lambda a, b: TList(TStr).eq(a.fields["parameters"], b.fields["parameters"]),
                   same_list=lambda a, b: z3.And(a.n == b.n, *[x == y for x, y in zip(a.comps, b.comps)])),
     props=("C09",)))
+
+
+# ---- C09: 'non-bonded pair parameters are symmetric in the pair, explicit nonbond_params override generated ones, self terms come
+#      from the atom types' -- Topology.gen_pairs ---------------------------------------------------------------------------------
+from pyvc.types import TUPair as _TUPair, upair_fn as _upair_fn
+
+_ATYPE = _TRec("atomtype", nb1=TReal, nb2=TReal)
+_NBP = _TRec("nbparams", nb1=TReal, nb2=TReal)
+_DEFAULTS = _TRec("defaults", **{"comb-rule": TReal, "gen-pairs": TStr})
+# atom-type names are only ever compared and used as keys: an uninterpreted sort (TNode) stands for them
+_TOPO = _TRec("polyply.src.topology:Topology", defaults=_DEFAULTS, atom_types=TDict(TNode, _ATYPE), nonbond_params=TDict(_TUPair(TNode), _NBP))
+_UPS, _UP, _UP_AXIOMS = _upair_fn(TNode)
+_A, _B = z3.Const("A_", TNode.sort), z3.Const("B_", TNode.sort)
+_key = z3.Const("key_", _UPS)
+
+
+def _at(top, a):
+    d = top.fields["atom_types"]
+    return d.v.unflat([c[a] for c in d.comps])
+
+
+def _is_type(top, a):
+    return z3.Select(top.fields["atom_types"].dom, a)
+
+
+def _nb(top, key):
+    d = top.fields["nonbond_params"]
+    return d.v.unflat([c[key] for c in d.comps])
+
+
+def _has_nb(top, key):
+    return z3.Select(top.fields["nonbond_params"].dom, key)
+
+
+def _rule(top):
+    return ops.real(top.fields["defaults"].fields["comb-rule"])
+
+
+def pair_ok(top, old, a, b):
+    """the entry of {a, b} is what the combination rule of the topology gives for the two atom types -- symmetric in a and b"""
+    e = _nb(top, _UP(a, b))
+    ta, tb = _at(old, a), _at(old, b)
+    n1a, n1b, n2a, n2b = [ops.real(x) for x in (ta.fields["nb1"], tb.fields["nb1"], ta.fields["nb2"], tb.fields["nb2"])]
+    v1, v2 = ops.real(e.fields["nb1"]), ops.real(e.fields["nb2"])
+    # geometric mean = principal square root of the product (>= 0, squares to the product: the sqrt axioms of the prelude)
+    geo = z3.And(v1 == ops.SQRT(n1a * n1b), v2 == ops.SQRT(n2a * n2b))
+    lb = z3.And(v1 == (n1a + n1b) / 2, v2 == ops.SQRT(n2a * n2b))
+    return z3.If(_rule(old) == 2, geo, lb)
+
+
+def explicit_kept(top, old):
+    return z3.ForAll([_key], z3.Implies(_has_nb(old, _key), z3.And(_has_nb(top, _key), _NBP.eq(_nb(top, _key), _nb(old, _key)))))
+
+
+def rule_values(old, a, b):
+    ta, tb = _at(old, a), _at(old, b)
+    n1a, n1b, n2a, n2b = [ops.real(x) for x in (ta.fields["nb1"], tb.fields["nb1"], ta.fields["nb2"], tb.fields["nb2"])]
+    return (z3.If(_rule(old) == 2, ops.SQRT(n1a * n1b), (n1a + n1b) / 2), ops.SQRT(n2a * n2b))
+
+
+def generated_ok(top, old, ka, kb):
+    """ghost bookkeeping keyed by the dictionary key (one quantified variable): every entry that was not there before was generated
+    for the two atom types recorded for it -- by the combination rule if they differ, from the atom type if they are the same"""
+    a, b = ka.comps[0][_key], kb.comps[0][_key]
+    e = _nb(top, _key)
+    v1, v2 = rule_values(old, a, b)
+    t = _at(old, a)
+    return z3.ForAll([_key], z3.Implies(z3.And(_has_nb(top, _key), z3.Not(_has_nb(old, _key))), z3.And(
+        _is_type(old, a), _is_type(old, b), _key == _UP(a, b),
+        z3.Implies(a != b, z3.And(ops.S(old.fields["defaults"].fields["gen-pairs"]) == z3.StringVal("yes"),
+                                  ops.real(e.fields["nb1"]) == v1, ops.real(e.fields["nb2"]) == v2)),
+        z3.Implies(a == b, z3.And(e.fields["nb1"] == t.fields["nb1"], e.fields["nb2"] == t.fields["nb2"])))))
+
+
+def pairs_present(top, old, pos=None, k=None):
+    seen = z3.BoolVal(True) if pos is None else pos(_A, _B) < k
+    return z3.ForAll([_A, _B], z3.Implies(z3.And(_is_type(old, _A), _is_type(old, _B), _A != _B, seen), _has_nb(top, _UP(_A, _B))))
+
+
+def selfs_present(top, old, pos=None, k=None):
+    seen = z3.BoolVal(True) if pos is None else pos(_A) < k
+    return z3.ForAll([_A], z3.Implies(z3.And(_is_type(old, _A), seen), _has_nb(top, _UP(_A, _A))))
+
+
+def no_selfs_yet(top, old, ka, kb):
+    return z3.ForAll([_key], z3.Implies(z3.And(_has_nb(top, _key), z3.Not(_has_nb(old, _key))), ka.comps[0][_key] != kb.comps[0][_key]))
+
+
+def pairs_generated(top, old):
+    """the statement: a pair of different atom types without an explicit entry carries the combination rule's value -- for either order"""
+    return z3.ForAll([_A, _B], z3.Implies(z3.And(_is_type(old, _A), _is_type(old, _B), _A != _B, z3.Not(_has_nb(old, _UP(_A, _B)))),
+                                          z3.And(_has_nb(top, _UP(_A, _B)), pair_ok(top, old, _A, _B))))
+
+
+def selfs_generated(top, old):
+    e = _nb(top, _UP(_A, _A))
+    t = _at(old, _A)
+    return z3.ForAll([_A], z3.Implies(z3.And(_is_type(old, _A), z3.Not(_has_nb(old, _UP(_A, _A)))),
+                                      z3.And(_has_nb(top, _UP(_A, _A)), e.fields["nb1"] == t.fields["nb1"], e.fields["nb2"] == t.fields["nb2"])))
+
+
+def nothing_else(top, old):
+    return z3.ForAll([_key], z3.Implies(_has_nb(top, _key), z3.Or(_has_nb(old, _key),
+                                                                  z3.Exists([_A, _B], z3.And(_is_type(old, _A), _is_type(old, _B), _key == _UP(_A, _B))))))
+
+
+def _set_key(G, key, val):
+    from pyvc.types import SDict
+    return SDict(G.k, G.v, G.dom, [z3.Store(G.comps[0], key, val)])
+
+
+def hook_pair(eng, env):
+    key = _UP(env["atom_type_A"], env["atom_type_B"])
+    env["_ka"] = _set_key(env["_ka"], key, env["atom_type_A"])
+    env["_kb"] = _set_key(env["_kb"], key, env["atom_type_B"])
+
+
+def hook_self(eng, env):
+    key = _UP(env["atom_type"], env["atom_type"])
+    env["_ka"] = _set_key(env["_ka"], key, env["atom_type"])
+    env["_kb"] = _set_key(env["_kb"], key, env["atom_type"])
+
+
+def gen_pairs_pre(top):
+    r = _rule(top)
+    t = _at(top, _A)
+    return z3.And(z3.Or(r == 1, r == 2, r == 3),
+                  z3.ForAll([_A], z3.Implies(_is_type(top, _A), z3.And(ops.real(t.fields["nb1"]) >= 0, ops.real(t.fields["nb2"]) >= 0))))
+
+
+def _same_but_nb(a, b):
+    return z3.And(_DEFAULTS.eq(a.fields["defaults"], b.fields["defaults"]),
+                  a.fields["atom_types"].dom == b.fields["atom_types"].dom, *[x == y for x, y in zip(a.fields["atom_types"].comps, b.fields["atom_types"].comps)])
+
+
+GEN_PAIRS = REG.add(Contract(
+    "polyply.src.topology:Topology.gen_pairs",
+    params=dict(self=_TOPO),
+    requires={"a known combination rule and non-negative atom-type parameters (the combination rules take square roots)": "gen_pairs_pre(self)"},
+    axioms={"unordered pairs: {a, b} = {b, a}, and equal pairs have equal members": "upair_axioms()"},
+    ensures={"explicit nonbond_params override generated ones: every entry present before is unchanged": "explicit_kept(self, old(self))",
+             "with gen-pairs every pair of different atom types without an explicit entry gets the combination rule's value, the same for (a, b) and (b, a)":
+             "implies(old(self).defaults['gen-pairs'] == 'yes', pairs_generated(self, old(self)))",
+             "self terms come from the atom types": "selfs_generated(self, old(self))",
+             "nothing else is added": "nothing_else(self, old(self))",
+             "atom types and defaults are only read": "same_but_nb(self, old(self))"},
+    modifies=["self.nonbond_params"],
+    ghost_locals={"_ka": TDict(_TUPair(TNode), TNode), "_kb": TDict(_TUPair(TNode), TNode)},
+    ghost={'after:self.nonbond_params.update({frozenset([atom_type_A, atom_type_B]): {"nb1": nb1, "nb2": nb2}})': hook_pair,
+           'after:self.nonbond_params.update({frozenset([atom_type, atom_type]): {"nb1": nb1, "nb2": nb2}})': hook_self},
+    loops={0: Loop({"explicit entries kept": "explicit_kept(self, old(self))",
+                    "new entries are generated ones (ghost: per key)": "generated_ok(self, old(self), _ka, _kb)",
+                    "only pairs so far": "no_selfs_yet(self, old(self), _ka, _kb)",
+                    "pairs visited so far have an entry": "pairs_present(self, old(self), _comb_pos, k)",
+                    "frame": "same_but_nb(self, old(self))"}, modifies=["_ka", "_kb"]),
+           1: Loop({"explicit entries kept": "explicit_kept(self, old(self))",
+                    "new entries are generated ones (ghost: per key)": "generated_ok(self, old(self), _ka, _kb)",
+                    "pairs have an entry": "implies(old(self).defaults['gen-pairs'] == 'yes', pairs_present(self, old(self)))",
+                    "self terms visited so far have an entry": "selfs_present(self, old(self), _pos1, k1)",
+                    "frame": "same_but_nb(self, old(self))"}, index="k1", modifies=["_ka", "_kb"])},
+    spec_fns=dict(gen_pairs_pre=gen_pairs_pre, explicit_kept=explicit_kept, pairs_generated=pairs_generated, selfs_generated=selfs_generated,
+                  nothing_else=nothing_else, same_but_nb=_same_but_nb, upair_axioms=lambda: z3.And(*_UP_AXIOMS),
+                  generated_ok=generated_ok, pairs_present=pairs_present, selfs_present=selfs_present, no_selfs_yet=no_selfs_yet),
+    props=("C09",),
+    note="uses the proved contracts of the two combination rules; itertools.combinations over the atom-type table modelled as a ghost sequence "
+         "holding every unordered pair of different names once; frozenset keys as an uninterpreted unordered-pair sort"))
